@@ -303,7 +303,13 @@ def run(tier="quick", seed=0):
         for n in range(1500 if thorough else 200):
             bf = BitField(rng.choice([8, 16, 32]))
             tags_a, tags_b = ["t1", "t2"][:rng.randint(0, 2)], rng.choice(["", "t3", "t1 t3"])
-            checked("BitField.add_field", bf.add_field, ["a"], {"length": rng.choice([None, 2]), "tags": tags_a}, names=["identifier"])
+            # (every third time the tags are a set object the caller keeps and reuses for a second, unrelated bit field)
+            shared = set(tags_a) | {"s"} if n % 3 == 0 else None
+            other = BitField(32)
+            if shared is not None:
+                other.add_field("o", length=4, tags=shared)
+                other_tags_before = sorted(other.get_tags("o"))
+            checked("BitField.add_field", bf.add_field, ["a"], {"length": rng.choice([None, 2]), "tags": shared if shared is not None else tags_a}, names=["identifier"])
             checked("BitField.add_field", bf.add_field, ["b"], {"tags": tags_b}, names=["identifier"])
             va = rng.randrange(4)
             child_ = bf(a=va)
@@ -314,6 +320,16 @@ def run(tier="quick", seed=0):
             g = checked("BitField.__call__", lambda parent, kw: parent(**kw), [child_, vals], names=["self", "field_values"])
             checked("BitField.__call__", lambda parent, kw: parent(**kw), [g, {"c": rng.randrange(4)}],
                     names=["self", "field_values"])
+            if shared is not None:
+                shared_before = set(shared)
+                # a field below `a` with tags of its own: they propagate to `a` inside the bit field, not to the caller's set
+                child_.add_field("d", length=1, tags="deep " + " ".join(tags_a))
+                if shared != shared_before:
+                    record("argument_modified", "BitField_tags@%d" % ev, "the set passed as tags= to add_field was changed by a later add_field of a child field",
+                           {"tags_passed": sorted(shared_before), "now": sorted(shared)})
+                elif sorted(other.get_tags("o")) != other_tags_before:
+                    record("remembers_earlier_calls", "BitField_tags@%d" % ev, "tags of a field of an unrelated bit field changed",
+                           {"before": other_tags_before, "after": sorted(other.get_tags("o"))})
             fv = [child_.field_values, g.field_values, tags_a]
             before = snap(P, fv)
             try:
